@@ -69,6 +69,7 @@ type Knobs struct {
 	PInitContainers            float64
 	Closed                     bool
 	NoMinRuntimeNearBoundary   bool
+	NoEvictCallFaults          bool // C13/C14 do not quantify over failing Evict calls
 }
 
 var allActions = "allocate, consolidation, reclaim, preempt, stalegangeviction"
@@ -163,6 +164,7 @@ func Profile(name string) Knobs {
 		k.KindWeights = map[string]int{"cpu": 2, "besteffort": 1, "whole": 5, "fraction": 5, "gpumem": 3, "multifrac": 2, "mig": 1, "ext": 1}
 		k.ActionsChoices = []string{allActions}
 		k.PFaults = 0.2
+		k.NoEvictCallFaults = true
 		k.PTopology = 0.1
 	case "mixed":
 	}
@@ -253,6 +255,9 @@ func GenerateWith(k Knobs, profile string, seed int64, index int, tier string) *
 	}
 	if g.p(k.PFaults) {
 		g.c.Faults = spec.Faults{PBindRequestCreateFails: pick(g, []float64{0.1, 0.5}), PPodDeleteFails: pick(g, []float64{0, 0.1, 0.5}), PEvictCallFails: pick(g, []float64{0, 0, 0.2})}
+		if k.NoEvictCallFaults {
+			g.c.Faults.PEvictCallFails = 0
+		}
 	}
 	return g.c
 }
